@@ -203,6 +203,11 @@ impl<SC: StarkGenericConfig> OpenedValuesTargetsWithLookups<SC> {
     ///
     /// The opened values are extension field elements, so we use observe_ext_slice.
     ///
+    /// Only the opened values of the STARK proof are observed. The FRI-level random opened
+    /// values that `HidingFriPcs` carries in its opening proof, which the native verifier
+    /// observes after the values of each opened point, are not part of this structure: this
+    /// method does not reproduce the native transcript of a ZK proof.
+    ///
     /// # Parameters
     /// - `circuit`: Circuit builder
     /// - `challenger`: Running challenger state
